@@ -143,6 +143,11 @@ def cases(tier):
     for it in corpus.build(tier):
         yield {"name": it["name"], "payload": it["payload"], "must_parse": it["kind"] != "fail"}
     yield from steered()
+    from mc import items  # pylint: disable=import-outside-toplevel
+
+    for nm, it in items.frames().items():
+        if len(it["payload"]) >= 2:
+            yield {"name": f"item:{nm}", "payload": it["payload"], "must_parse": True}
     # payloads whose frame has CRC-24Q exactly 000000 (a legitimate value, not a sentinel)
     for ln in (5, 6, 8, 21, 64, 255, 256, 700, 1023):
         for num in (999, 1005, 2000):
